@@ -190,6 +190,8 @@ func c03Facts(fs *Facts, s *c02Src) {
 	sh, td, w := c02ReaderFacts(s)
 	fs.Tri("shortHeaderIsEOF", sh, w)
 	fs.Tri("tornDataIsEOF", td, w)
+	_, tr, w := c02OpensExistingForAppend(s)
+	fs.Tri("truncatesTornTail", tr, w)
 }
 
 func init() {
